@@ -7,12 +7,12 @@ namespace AGV.Lemmas.PegX
 open AGV.Model.Peg AGV.Model.BuildAst AGV.Spec.Lex AGV.Spec.Parse AGV.Core.PAst AGV.Lemmas.PegC13 AGV.Lemmas.SpecVal
 
 def BuildsFL (s₀ : List Char) (p : Nat) (ps : List Pair) (fs : List (Name × PValue)) : Prop :=
-  ∀ bf, s₀.length - p < bf → ps.mapM (fieldBuild (envOf s₀) bf) = .ok (normFs fs)
+  ∀ bf, s₀.length - p < bf → ps.mapM (fieldBuild (envOf s₀) bf) = expFs fs
 
 theorem chain_fields {F : ValFam} {p : Nat} {s : List Char} {p' : Nat} {s' : List Char} {ps : List Pair}
     (h : Chain (GoodFC F) p s p' s' ps) : ∀ s₀, At s₀ p s →
     ∃ fs, fieldsV P' F.const (toks s) = (closeTok '}' (toks s')).map (fun r => (fs, r)) ∧ At s₀ p' s' ∧ p ≤ p' ∧
-      (finFs fs = true → BuildsFL s₀ p ps fs) := by
+      BuildsFL s₀ p ps fs := by
   induction h with
   | @stop p s hg =>
     intro s₀ hat
@@ -21,7 +21,7 @@ theorem chain_fields {F : ValFam} {p : Nat} {s : List Char} {p' : Nat} {s' : Lis
       cases hp : pField F.const (toks (skipI s)) with
       | none => rfl
       | some x => obtain ⟨⟨n, v⟩, ts'⟩ := x; obtain ⟨s'', pr, e, -⟩ := hg'.ok hp; cases e
-    refine ⟨[], ?_, hat, Nat.le_refl _, fun _ bf _ => rfl⟩
+    refine ⟨[], ?_, hat, Nat.le_refl _, fun bf _ => by rw [expFs_nil]; rfl⟩
     rw [← toks_skipI s]
     by_cases hc : ∃ r, toks (skipI s) = .punct '}' :: r
     · obtain ⟨r, hr⟩ := hc
@@ -48,11 +48,11 @@ theorem chain_fields {F : ValFam} {p : Nat} {s : List Char} {p' : Nat} {s' : Lis
         simp only [Option.bind_some]
         rw [← hts, hi]
         cases closeTok '}' (toks s3) <;> rfl
-      · intro hnf bf hbf
-        simp only [finFs, Bool.and_eq_true] at hnf
-        have h1 := hb hnf.1 bf (by rw [hst]; omega)
-        have h2 := hbl hnf.2 bf (by omega)
-        simp [List.mapM_cons, h1, h2, normFs, bind, Except.bind, pure, Except.pure]
+      · intro bf hbf
+        have h1 := hb bf (by rw [hst]; omega)
+        have h2 := hbl bf (by omega)
+        rw [List.singleton_append, List.mapM_cons, h1, h2, expFs_cons]
+        rfl
 
 theorem goodFC_shape {F : ValFam} {q : Nat} {t : List Char} {r : Res} (h : GoodFC F q t r) :
     r = .fail ∨ ∃ p2 s2 ps, r = .ok p2 s2 ps ∧ s2.length < t.length := by
@@ -76,8 +76,8 @@ theorem build_obj (F : ValFam) (hF : IsFam F) (s₀ : List Char) (q p5 p2 : Nat)
     intro vn on hon
     rcases hon with rfl | rfl <;> rfl
   rcases hF with rfl | rfl
-  · exact (key famV.vName "object" (Or.inl rfl)).trans (by rw [this]; rfl)
-  · exact (key famC.vName "const_object" (Or.inr rfl)).trans (by rw [this]; rfl)
+  · exact (key famV.vName "object" (Or.inl rfl)).trans (by rw [this, expV_obj])
+  · exact (key famC.vName "const_object" (Or.inr rfl)).trans (by rw [this, expV_obj])
 
 theorem value_object_case (F : ValFam) (hF : IsFam F) (q : Nat) (t : List Char) (ht : TokStart t)
     (rest : List Char) (hl : lexToken t = some (.punct '{', rest)) (hts : toks t = .punct '{' :: toks rest)
@@ -152,13 +152,13 @@ theorem value_object_case (F : ValFam) (hF : IsFam F) (q : Nat) (t : List Char) 
     obtain ⟨fs, hi, -, -, hbl⟩ := chain_fields hch s₀ hat2
     refine goodV_of_ev hev' (v := .obj fs) ?_ hl5 ?_
     · rw [hts, pV_lbrace, ← toks_skipI rest, hi, hcl]; rfl
-    · intro hnf
-      exact build_obj F hF s₀ q _ (skipPos (q + 1) rest) ps fs (by have := skipPos_ge (q + 1) rest; omega)
-        (by have := hat2.len; omega) (hbl (by simpa [finV] using hnf))
+    · exact build_obj F hF s₀ q _ (skipPos (q + 1) rest) ps fs (by have := skipPos_ge (q + 1) rest; omega)
+        (by have := hat2.len; omega) hbl
 
 /-- The value rules on EVERY text that starts a token, at every position: the interpreter's result
     is what the specification's `pValue` reads there (same acceptance, same remaining tokens), and
-    the tree builder computes the specification's value from the emitted pair (float-free values). -/
+    the tree builder computes the specification's value from the emitted pair, or reports the number
+    error exactly when a float literal in the value denotes the infinite double (`expV`). -/
 theorem value_main (F : ValFam) (hF : IsFam F) : ∀ (L : Nat) (t : List Char) (q : Nat), t.length ≤ L → TokStart t →
     ∃ r, EvR G0 c0 (.ident F.vName) q t (24 * t.length + 60) r ∧ GoodC F q t r := by
   intro L
